@@ -218,6 +218,93 @@ func genCase(t *rapid.T) Case {
 			strip(a.Kids)
 		}
 	}
+	// local names recur on different levels of real models ("name", "address" ...): a node inside a case (directly or in a
+	// non-presence container of the case) takes the name of a sibling of its choice
+	var reuse func(kids []*sg.Node)
+	reuse = func(kids []*sg.Node) {
+		for _, ch := range kids {
+			reuse(ch.Kids)
+			if ch.Kind != "choice" || !g.Chance(1, 2, "reusename") {
+				continue
+			}
+			var sib *sg.Node
+			for _, k := range kids {
+				if k != ch && (k.Kind == "leaf" || k.Kind == "leaf-list") {
+					sib = k
+				}
+			}
+			if sib == nil {
+				continue
+			}
+			var cands []*sg.Node
+			var inner func(ns []*sg.Node, depth int)
+			inner = func(ns []*sg.Node, depth int) {
+				for _, n := range ns {
+					switch n.Kind {
+					case "case":
+						inner(n.Kids, depth)
+					case "container":
+						if n.Presence == "" && depth < 2 {
+							inner(n.Kids, depth+1)
+						}
+					case "leaf", "leaf-list":
+						if depth > 0 {
+							cands = append(cands, n)
+						}
+					}
+				}
+			}
+			inner(ch.Kids, 0)
+			if len(cands) > 0 {
+				victim := cands[g.Pick(len(cands), "victim")]
+				// preferably a node whose absence matters
+				for _, cnd := range cands {
+					if cnd.Mandatory == "true" || (cnd.Min != "" && cnd.Min != "0") {
+						victim = cnd
+					}
+				}
+				if victim.Kind == "leaf" && victim.Mandatory != "true" && victim.Default == nil && victim.When == "" && g.Bool("makemandatory") {
+					victim.Mandatory = "true"
+				}
+				victim.Name = sib.Name
+			}
+		}
+	}
+	for _, m := range c.Mods {
+		reuse(m.Nodes)
+	}
+	if g.Chance(1, 3, "gadget") && len(c.Mods[0].Nodes) > 0 {
+		// a choice whose case holds a non-presence container (or two nested ones) with a node that must be there, named
+		// like a sibling of the choice; which parts exist is left to the data generator
+		str := func() *sg.TypeSpec { return &sg.TypeSpec{Name: "string"} }
+		n := []string{"name", "address", "gx-id"}[g.Pick(3, "gname")]
+		var must *sg.Node
+		switch g.Pick(3, "gmust") {
+		case 0:
+			must = &sg.Node{Kind: "leaf", Name: n, Type: str(), Mandatory: "true"}
+		case 1:
+			must = &sg.Node{Kind: "leaf-list", Name: n, Type: str(), Min: "1"}
+		default:
+			must = &sg.Node{Kind: "choice", Name: "gx-inner", Mandatory: "true", Kids: []*sg.Node{{Kind: "leaf", Name: n, Type: str()}, {Kind: "leaf", Name: "gx-alt", Type: str()}}}
+			if g.Bool("ginneropt") {
+				must.Mandatory = ""
+			}
+		}
+		auth := &sg.Node{Kind: "container", Name: "gx-auth", Kids: []*sg.Node{must, {Kind: "leaf", Name: "gx-secret", Type: str()}}}
+		if g.Bool("gdeep") {
+			auth = &sg.Node{Kind: "container", Name: "gx-outer", Kids: []*sg.Node{auth}}
+		}
+		sib := &sg.Node{Kind: "leaf", Name: n, Type: str()}
+		if g.Bool("gsibll") {
+			sib = &sg.Node{Kind: "leaf-list", Name: n, Type: str()}
+		}
+		gadget := &sg.Node{Kind: "container", Name: "gx-server", Kids: []*sg.Node{sib, {Kind: "leaf", Name: "gx-descr", Type: str()},
+			{Kind: "choice", Name: "gx-access", Kids: []*sg.Node{
+				{Kind: "case", Name: "gx-remote", Kids: []*sg.Node{{Kind: "leaf", Name: "gx-host", Type: str()}, auth}},
+				{Kind: "case", Name: "gx-local", Kids: []*sg.Node{{Kind: "leaf", Name: "gx-path", Type: str()}}}}}}}
+		top := c.Mods[0].Nodes[0]
+		top.Kids = append(top.Kids, gadget)
+	}
 	w := newWorld(c.Mods)
 	if w == nil {
 		return c
@@ -225,6 +312,55 @@ func genCase(t *rapid.T) Case {
 	_, tops := w.tops()
 	x := &gen{g, w}
 	c.Data = x.kids(tops, 4)
+	// the gadget's own data: every combination of sibling / active case / container / required node
+	if top := c.Mods[0].Nodes[0]; len(top.Kids) > 0 && top.Kids[len(top.Kids)-1].Name == "gx-server" && g.Chance(2, 3, "gdata") {
+		gad := top.Kids[len(top.Kids)-1]
+		sibName := gad.Kids[0].Name
+		srv := &D{Name: "gx-server"}
+		if g.Bool("dsib") {
+			srv.Kids = append(srv.Kids, &D{Name: sibName, Vals: []string{"s1"}})
+		}
+		if g.Bool("ddescr") {
+			srv.Kids = append(srv.Kids, &D{Name: "gx-descr", Vals: []string{"d"}})
+		}
+		switch g.Pick(4, "dcase") {
+		case 0:
+			srv.Kids = append(srv.Kids, &D{Name: "gx-path", Vals: []string{"p"}})
+		case 1, 2:
+			srv.Kids = append(srv.Kids, &D{Name: "gx-host", Vals: []string{"h"}})
+			if g.Bool("dauth") {
+				auth := &D{Name: "gx-auth"}
+				if g.Bool("dsecret") {
+					auth.Kids = append(auth.Kids, &D{Name: "gx-secret", Vals: []string{"x"}})
+				}
+				if g.Bool("dmust") {
+					auth.Kids = append(auth.Kids, &D{Name: sibName, Vals: []string{"inner"}})
+				}
+				holder := auth
+				if gad.Kids[2].Kids[0].Kids[1].Name == "gx-outer" {
+					holder = &D{Name: "gx-outer", Kids: []*D{auth}}
+				}
+				srv.Kids = append(srv.Kids, holder)
+			}
+		}
+		var topD *D
+		for _, d := range c.Data {
+			if d.Name == top.Name {
+				topD = d
+			}
+		}
+		if topD == nil {
+			topD = &D{Name: top.Name}
+			c.Data = append(c.Data, topD)
+		}
+		var kept []*D
+		for _, k := range topD.Kids {
+			if k.Name != "gx-server" {
+				kept = append(kept, k)
+			}
+		}
+		topD.Kids = append(kept, srv)
+	}
 	return c
 }
 
